@@ -48,6 +48,16 @@ type anyCase struct {
 	When    string  `json:"when,omitempty"` // loss: idle | mid-transfer | during-open
 	Probe   bool    `json:"probe_recovery,omitempty"`
 	Seed    int64   `json:"seed"`
+	// judged (slow part only): called once when the verdict of the case is in, before anything is torn down.
+	// It blocks until every concurrently running case has its verdict: the teardown of one case (closing a
+	// silent endpoint lets the stuck client move on) is progress that would restart the stall window of the others.
+	judged func()
+}
+
+func (c *anyCase) hold() {
+	if c.judged != nil {
+		c.judged()
+	}
 }
 
 // silentWindow: a silent upstream is judged "never abandoned" only after this long without the client
@@ -345,7 +355,7 @@ func runList(rec *vcommon.Rec, c *anyCase) (stalled bool) {
 		rec.Inconclusive("fixture: "+err.Error(), c)
 		return false
 	}
-	defer s.close()
+	defer func() { c.hold(); s.close() }()
 	wait := stdWait
 	if c.Part == "silent" {
 		wait = func(d <-chan struct{}) e2e.Outcome { return e2e.C16WaitLocal(d, s.progress, silentWindow) }
@@ -569,7 +579,7 @@ func listCases(rec *vcommon.Rec) []*anyCase {
 		}
 	}
 	all := []string{"none", "reachable", "refused"}
-	reps := rec.Pick(3, 10)
+	reps := rec.Pick(8, 24)
 	for rep := 0; rep < reps; rep++ {
 		for length := 1; length <= 3; length++ {
 			for mask := 0; mask < 1<<uint(length); mask++ { // every failing subset
@@ -577,7 +587,7 @@ func listCases(rec *vcommon.Rec) []*anyCase {
 			}
 		}
 	}
-	for i := 0; i < rec.Pick(12, 60); i++ { // seeded sample of 4-entry lists
+	for i := 0; i < rec.Pick(40, 200); i++ { // seeded sample of 4-entry lists
 		gen(4, rng.Intn(16), []string{all[rng.Intn(3)]})
 	}
 	return out
@@ -712,7 +722,7 @@ func runLoss(rec *vcommon.Rec, c *anyCase) (stalled bool) {
 		rec.Inconclusive("fixture: "+err.Error(), c)
 		return false
 	}
-	defer s.close()
+	defer func() { c.hold(); s.close() }()
 	ep := s.eps[0]
 	key := uint64(c.Seed) * 64
 	long := func(d <-chan struct{}) e2e.Outcome { return e2e.C16WaitLocal(d, s.progress, 100*time.Second) }
@@ -977,11 +987,16 @@ func TestVerifC16(t *testing.T) {
 	if os.Getenv("C16_PART") == "slow" {
 		// every case here waits for a long time by construction (a silent upstream, a black-holed carrier):
 		// all of them run at once and share the wait
-		var wg sync.WaitGroup
-		for _, c := range append(silentCases(rec), lossSlow...) {
+		var wg, verdicts sync.WaitGroup
+		all := append(silentCases(rec), lossSlow...)
+		verdicts.Add(len(all))
+		for _, c := range all {
+			var once sync.Once
+			c.judged = func() { once.Do(verdicts.Done); verdicts.Wait() }
 			wg.Add(1)
 			go func(c *anyCase) {
 				defer wg.Done()
+				defer c.judged()
 				runAny(rec, c)
 			}(c)
 			time.Sleep(20 * time.Millisecond)
